@@ -1,7 +1,7 @@
 (* C14: multiple-walker sharing combines every walker's data exactly once (statements only; proofs in
    SharedProofs.v, models in SharedModel.v). *)
 From Coq Require Import ZArith List Bool Permutation.
-From CV Require Import C14.SharedModel C14.SharedProofs C14.StepProofs.
+From CV Require Import C14.SharedModel C14.SharedProofs C14.StepProofs C14.SysProofs.
 Import ListNotations.
 Local Open Scope Z_scope.
 
@@ -91,6 +91,14 @@ Theorem C14_opes_same_list : forall (K : Type) (rounds : list (list K)) (n k : n
 Proof. exact @opes_same_list. Qed.
 Print Assumptions C14_opes_same_list.
 
+(* ... and the sums of weights that normalise the bias (sum of weights, sum of squared weights; neff, rct and the
+   kernel normalisation are functions of them and of the common counter): the running sum that every walker holds
+   is its initial value plus every contribution of every walker of every round, each exactly once. *)
+Theorem C14_opes_sums_total : forall (A : Type) (G : GrpOps A), GrpLaws G ->
+  forall (rounds : list (list A)) (s : A), opes_sums G s rounds = fold_left (gadd G) (concat rounds) s.
+Proof. exact opes_sums_total. Qed.
+Print Assumptions C14_opes_sums_total.
+
 (* The code before the repair of read_state_data (last := G on restart) violated the statement:
    C14_abf_union_once with `run G true`:  a sample collected after the last exchange is lost by a restart. *)
 Theorem C14_abf_union_once_before_repair_refuted :
@@ -100,28 +108,55 @@ Proof. exact abf_old_refuted. Qed.
 Print Assumptions C14_abf_union_once_before_repair_refuted.
 
 (* ---- file-based multiple-walker metadynamics: one peer (writer) and one reader; a trace is any
-   interleaving of the peer's deposits, of what the reader can see of the peer's hills file (any prefix),
-   of the peer's state-file rewrites and restarts (with or without a new output prefix), and of the
-   reader's exchanges, own state-file writes and restarts.  trace_ok true = the peer numbers its own steps
-   sensibly (hills later than the state file in place; state files not earlier than their hills) and the
-   reader does not exchange between the two halves of a state-file rewrite of the peer (state file renamed,
-   hills file not yet restarted); PWState is the rewrite as one atomic event, PWStateA/PWStateB its halves. *)
+   interleaving of the peer's deposits, of what the reader can see of the peer's hills file (any prefix) and of
+   its state file (all of it, or a proper prefix), of the peer's state-file rewrites -- as one event or as their
+   two halves, hills file restarted (PWStateB) then state file renamed (PWStateA) -- and restarts (with or
+   without a new output prefix), and of the reader's exchanges, own state-file writes and restarts.
+   trace_ok true = the peer numbers its own steps sensibly (hills later than the state file in place; state
+   files not earlier than their hills) and performs the two halves in the order of the repaired code.
+   NOTHING is assumed of the reader: it may exchange at any moment, also between the two halves. *)
 
 (* Whatever the interleaving: the hills the reader holds for the peer are a prefix of the peer's deposited
    sequence (no loss inside, no duplicate, in order); and right after each exchange of the reader with a
-   registered peer, everything visible of the peer (state file + complete visible records) is in it. *)
+   registered peer, everything visible of the peer (state file, if all of it is visible, + complete visible
+   records) is in it; a partly visible state file leaves what the reader holds untouched. *)
 Theorem C14_meta_prefix :
   (forall es w m, trace_ok true true true es pinit = true ->
      prun true true es pinit = (w, Some m) -> prefix (m_cont m) (w_D w)) /\
   (forall es w om, trace_ok true true true (es ++ [RShare]) pinit = true ->
      prun true true (es ++ [RShare]) pinit = (w, om) -> w_reg w = true ->
-     exists m, om = Some m /\ prefix (visible w) (m_cont m) /\ prefix (m_cont m) (w_D w) /\ m_sync m = true).
+     exists m, om = Some m /\ prefix (visible w) (m_cont m) /\ prefix (m_cont m) (w_D w) /\
+               (w_sok w = true -> m_sync m = true) /\
+               (w_sok w = false -> m_cont m = cont_of (prun true true es pinit))).
 Proof. exact meta_prefix_both. Qed.
 Print Assumptions C14_meta_prefix.
 
+(* ANY number of walkers, each writing its own files and reading those of all the others (sys_step: the loop of
+   read_replica_files over the peers; a state-file write of a walker also schedules its own mirrors for a reread).
+   Seen by any ordered pair (reader r, peer p) the system is the one-writer/one-reader system on the projected
+   trace, so for every interleaving of all walkers' events and every pair: what r holds for p is a prefix of what p
+   deposited, and after an exchange of r everything visible of p is in it. *)
+Theorem C14_meta_all_walkers_projection : forall n es s r p, wfs n s -> (r < n)%nat -> (p < n)%nat -> r <> p ->
+  pair_of (sys_run es s) r p = prun true true (flat_map (pproj r p) es) (pair_of s r p).
+Proof. exact pair_run. Qed.
+Print Assumptions C14_meta_all_walkers_projection.
+
+Theorem C14_meta_all_walkers_prefix : forall n es r p m, sys_ok n es = true -> (r < n)%nat -> (p < n)%nat -> r <> p ->
+  snd (pair_of (sys_run es (sys_init n)) r p) = Some m ->
+  prefix (m_cont m) (w_D (fst (pair_of (sys_run es (sys_init n)) r p))).
+Proof. exact sys_prefix. Qed.
+Print Assumptions C14_meta_all_walkers_prefix.
+
+Theorem C14_meta_all_walkers_complete : forall n es r p, sys_ok n (es ++ [SShare r]) = true -> (r < n)%nat -> (p < n)%nat -> r <> p ->
+  let st := pair_of (sys_run (es ++ [SShare r]) (sys_init n)) r p in
+  w_reg (fst st) = true ->
+  exists m, snd st = Some m /\ prefix (visible (fst st)) (m_cont m) /\ prefix (m_cont m) (w_D (fst st)).
+Proof. exact sys_share_complete. Qed.
+Print Assumptions C14_meta_all_walkers_complete.
+
 (* A peer's (re)read state file replaces, never adds to, what was read before: for ANY previous mirror
    content and read position the result is the state file plus the visible later records. *)
-Theorem C14_meta_restart : forall w m, w_reg w = true ->
+Theorem C14_meta_restart : forall w m, w_reg w = true -> w_sok w = true ->
   (m_sync m = false \/ m_has m = false \/ name_is (m_name m) (w_name w) = false \/
    (m_S m <> sf_step (w_state w) /\ m_has m = true)) ->
   exists m', share true true w (Some m) = Some m' /\
@@ -153,13 +188,13 @@ Theorem C14_meta_prefix_before_repair2_refuted : exists es, trace_ok true true f
 Proof. exact meta_old2_refuted. Qed.
 Print Assumptions C14_meta_prefix_before_repair2_refuted.
 
-(* Without the reader-side premise (trace_ok false: the writer-side conditions only) C14_meta_prefix is false
-   also of the repaired code: a reader that exchanges between the peer's state-file rename and the restart of
-   its hills file later reads the new hills file from the position reached in the old one. *)
-Theorem C14_meta_prefix_exchange_inside_state_rewrite_refuted : exists es, trace_ok false true true es pinit = true /\
+(* With the two halves in the order the code used before repair 8 (trace_ok false: state file renamed, then
+   hills file restarted) C14_meta_prefix is false even with the other repairs: a reader that exchanges between
+   the two later reads the new hills file from the position reached in the old one. *)
+Theorem C14_meta_prefix_old_order_refuted : exists es, trace_ok false true true es pinit = true /\
   prefixb (cont_of (prun true true es pinit)) (w_D (fst (prun true true es pinit))) = false.
-Proof. exact meta_midway_refuted. Qed.
-Print Assumptions C14_meta_prefix_exchange_inside_state_rewrite_refuted.
+Proof. exact meta_old_order_refuted. Qed.
+Print Assumptions C14_meta_prefix_old_order_refuted.
 
 (* ---- non-vacuity of the premises *)
 Example C14_ex_group : GrpLaws Zgrp.
@@ -174,17 +209,26 @@ Example C14_ex_meta : trace_ok true true true (meta_w1 ++ [RShare]) pinit = true
   cont_of (prun true true meta_w1 pinit) = [H 1; H 2; H 3; H 4; H 5].
 Proof. vm_compute. auto. Qed.
 
-(* a trace with a two-stage rewrite during which the reader does not exchange satisfies the premises *)
-Example C14_ex_meta_two_stage :
-  trace_ok true true true [PSetup 0 false; PDeposit (H 1); PVis 1; RShare; PWStateA 1; PVis 0; RWState; PWStateB;
-                           PDeposit (H 2); PVis 1; RShare] pinit = true /\
-  cont_of (prun true true [PSetup 0 false; PDeposit (H 1); PVis 1; RShare; PWStateA 1; PVis 0; RWState; PWStateB;
-                           PDeposit (H 2); PVis 1; RShare] pinit) = [H 1; H 2].
+(* the scenario of the old-order witness with the halves in the repaired order: the reader exchanges between
+   them and nothing is lost; and a trace in which the state file is partly visible at an exchange *)
+Example C14_ex_meta_two_stage : trace_ok true true true meta_w3_new pinit = true /\
+  cont_of (prun true true meta_w3_new pinit) = [H 1; H 2; H 3; H 4; H 5].
+Proof. exact meta_w3_new_ok. Qed.
+
+Example C14_ex_meta_partial_state :
+  trace_ok true true true [PSetup 0 false; PDeposit (H 1); PVis 1; RShare; PWState 1; PDeposit (H 2); PVis 1; PSVis false; RShare] pinit = true /\
+  cont_of (prun true true [PSetup 0 false; PDeposit (H 1); PVis 1; RShare; PWState 1; PDeposit (H 2); PVis 1; PSVis false; RShare] pinit) = [H 1] /\
+  cont_of (prun true true [PSetup 0 false; PDeposit (H 1); PVis 1; RShare; PWState 1; PDeposit (H 2); PVis 1; PSVis false; RShare; PSVis true; RShare] pinit) = [H 1; H 2].
 Proof. vm_compute. auto. Qed.
 
+Example C14_ex_all_walkers : sys_ok 3 ex_sys = true /\
+  map (fun rp => cont_of (pair_of (sys_run ex_sys (sys_init 3)) (fst rp) (snd rp))) [(1, 0); (2, 0); (0, 2); (2, 1)]%nat
+  = [[H 1; H 3]; [H 1; H 3]; [H 2]; [H 1]].
+Proof. exact ex_sys_ok. Qed.
+
 Example C14_ex_meta_restart : let w := fst (prun true true meta_w2 pinit) in
-  w_reg w = true /\ exists m, m_sync m = false.
-Proof. split; [vm_compute; reflexivity|]. exists m_new. reflexivity. Qed.
+  w_reg w = true /\ w_sok w = true /\ exists m, m_sync m = false.
+Proof. split; [vm_compute; reflexivity|]. split; [vm_compute; reflexivity|]. exists m_new. reflexivity. Qed.
 
 (* a 3-walker execution in which walker 1 enters the round first and walkers 0 and 2 go on sampling meanwhile *)
 Example C14_ex_interleaving : match srun Zgrp ex_acts (sinit Zgrp 3) with
